@@ -17,6 +17,7 @@ MIN_OBLIGATIONS = 60
 
 def build(src, tier):
     w = K.world_for(src, tier, weak=True)
+    w.faulty_super = True
     w2 = K.world_for(src, tier, weak=True)
     w2.faulty_super = True
     return [(w, [K.t_tree_lemmas(), K.t_start_at_weak(), K.t_dispatch_weak()]), (w2, [K.t_trans_weak()])]
